@@ -39,6 +39,31 @@ Definition spec_vec (l : list N) (o : vop) : option (list N * option (list N)) :
   | VLoad => Some (l, Some l)
   end.
 
+(* vectors of multi-word values: the same list model over word lists *)
+Definition spec_vecw (l : list (list N)) (o : wop) : option (list (list N) * option (list N)) :=
+  let len := N.of_nat (length l) in
+  match o with
+  | WPush v => Some (l ++ [v], Some [])
+  | WPop => match l with [] => Some (l, Some [0]) | _ => Some (removelast l, Some (1 :: last l [])) end
+  | WGet i => Some (l, Some (if i <? len then 1 :: nth (N.to_nat i) l [] else [0]))
+  | WSet i v => if i <? len then Some (upd (N.to_nat i) v l, Some []) else None
+  | WInsert i v => if i <=? len then Some (firstn (N.to_nat i) l ++ v :: skipn (N.to_nat i) l, Some []) else None
+  | WRemove i => if i <? len then Some (firstn (N.to_nat i) l ++ skipn (S (N.to_nat i)) l, Some (nth (N.to_nat i) l [])) else None
+  | WSwap i j =>
+    if (i <? len) && (j <? len)
+    then Some (upd (N.to_nat j) (nth (N.to_nat i) l []) (upd (N.to_nat i) (nth (N.to_nat j) l []) l), Some [])
+    else None
+  | WSwapRemove i =>
+    if i <? len then Some (removelast (upd (N.to_nat i) (last l []) l), Some (nth (N.to_nat i) l [])) else None
+  | WLen => Some (l, Some [len])
+  | WFirst => Some (l, Some (match l with [] => [0] | x :: _ => 1 :: x end))
+  | WLast => Some (l, Some (match l with [] => [0] | _ => 1 :: last l [] end))
+  | WReverse => Some (rev l, Some [])
+  | WFill v => Some (repeat v (length l), Some [])
+  | WResize n v => Some (if n <=? len then firstn (N.to_nat n) l else l ++ repeat v (N.to_nat (n - len)), Some [])
+  | WLoad => Some (l, Some (concat l))
+  end.
+
 (* ---------- S: maps are functions key -> option value ---------- *)
 Fixpoint bytes_eqb (a b : list N) : bool :=
   match a, b with
@@ -68,23 +93,37 @@ Definition spec_bytes (b : list N) (o : bop) : list N * option (list N) :=
   end.
 
 (* ---------- whole-contract spec state, keyed by field id ---------- *)
-Record sstate := { s_vec : N -> list N; s_map : N -> smap; s_bytes : N -> list N }.
-Definition sstate0 : sstate := {| s_vec := fun _ => []; s_map := fun _ _ => None; s_bytes := fun _ => [] |}.
+Record sstate := { s_vec : N -> list N; s_map : N -> smap; s_bytes : N -> list N;
+                   s_vecw : N -> list (list N);            (* vectors of structs *)
+                   s_cell : N -> N -> option (list N) }.   (* struct fields of plain storage fields, by word offset *)
+Definition sstate0 : sstate :=
+  {| s_vec := fun _ => []; s_map := fun _ _ => None; s_bytes := fun _ => []; s_vecw := fun _ => []; s_cell := fun _ _ => None |}.
 Definition fupd {A} (g : N -> A) (f : N) (x : A) : N -> A := fun f' => if N.eqb f' f then x else g f'.
 
 Definition spec_step (st : sstate) (o : op) : option (sstate * option (list N)) :=
   match o with
   | OVec f vo =>
     match spec_vec (s_vec st f) vo with
-    | Some (l', out) => Some ({| s_vec := fupd (s_vec st) f l'; s_map := s_map st; s_bytes := s_bytes st |}, out)
+    | Some (l', out) => Some ({| s_vec := fupd (s_vec st) f l'; s_map := s_map st; s_bytes := s_bytes st; s_vecw := s_vecw st; s_cell := s_cell st |}, out)
     | None => None
+    end
+  | OVecW f _ wo =>
+    match spec_vecw (s_vecw st f) wo with
+    | Some (l', out) => Some ({| s_vec := s_vec st; s_map := s_map st; s_bytes := s_bytes st; s_vecw := fupd (s_vecw st) f l'; s_cell := s_cell st |}, out)
+    | None => None
+    end
+  | OCell f o _ _ c =>
+    match c with
+    | CRead => Some (st, Some (out_opt (s_cell st f o)))
+    | CWrite v => Some ({| s_vec := s_vec st; s_map := s_map st; s_bytes := s_bytes st; s_vecw := s_vecw st;
+                           s_cell := fupd (s_cell st) f (fupd (s_cell st f) o (Some v)) |}, Some [])
     end
   | OMap f _ _ mo =>
     let '(m', out) := spec_map (s_map st f) mo in
-    Some ({| s_vec := s_vec st; s_map := fupd (s_map st) f m'; s_bytes := s_bytes st |}, Some out)
+    Some ({| s_vec := s_vec st; s_map := fupd (s_map st) f m'; s_bytes := s_bytes st; s_vecw := s_vecw st; s_cell := s_cell st |}, Some out)
   | OBytes f bo =>
     let '(b', out) := spec_bytes (s_bytes st f) bo in
-    Some ({| s_vec := s_vec st; s_map := s_map st; s_bytes := fupd (s_bytes st) f b' |}, out)
+    Some ({| s_vec := s_vec st; s_map := s_map st; s_bytes := fupd (s_bytes st) f b'; s_vecw := s_vecw st; s_cell := s_cell st |}, out)
   | OProbe _ => Some (st, None)
   end.
 
